@@ -16,6 +16,12 @@ pub mod c10;
 pub mod c13;
 #[cfg(feature = "c04")]
 pub mod c04;
+#[cfg(feature = "c02")]
+pub mod c02;
+#[cfg(feature = "c08")]
+pub mod c08;
+#[cfg(feature = "c11")]
+pub mod c11;
 #[cfg(feature = "c05")]
 pub mod c05;
 #[cfg(feature = "c09")]
@@ -32,6 +38,12 @@ pub fn tables() -> Vec<&'static [(&'static str, fn())]> {
     v.push(c13::TABLE);
     #[cfg(feature = "c04")]
     v.push(c04::TABLE);
+    #[cfg(feature = "c02")]
+    v.push(c02::TABLE);
+    #[cfg(feature = "c08")]
+    v.push(c08::TABLE);
+    #[cfg(feature = "c11")]
+    v.push(c11::TABLE);
     #[cfg(feature = "c05")]
     v.push(c05::TABLE);
     #[cfg(feature = "c09")]
